@@ -9,7 +9,7 @@ violation."""
 import concurrent.futures as cf
 import hashlib, importlib.util, json, os, re, resource, shutil, subprocess, sys, time
 
-from . import config, inject
+from . import config, inject, ctxcheck
 
 VERIF = config.VERIF
 REPO = config.REPO
@@ -325,6 +325,10 @@ def run_unit(unit, prop, tier, cfg, rundir, extra_defs=(), tag=""):
         sdir, shas, reports = prepare_sources(unit, wdir)
         res["source_sha256"] = shas
         res["loops"] = reports
+        # the verified text must be the text that ships: same conditional compilation inside the harness as in the library build
+        diffs = ctxcheck.differences(unit, prop, cfg, tier, list(extra_defs))
+        if diffs:
+            raise Undecided("preprocessing context of the harness differs from the library build: " + " | ".join(diffs)[:700])
         gb, cc_cmd, gi_cmd = build_goto(unit, prop, cfg, wdir, sdir, list(extra_defs), tier)
         if isinstance(unit.get("bound"), dict):
             res["bound"] = unit["bound"].get(tier)
@@ -703,7 +707,9 @@ def write_evidence(prop, tier, level, mod, results, violations, undecided, kf_li
     assumptions = list(getattr(mod, "ASSUMPTIONS", []))
     assumptions += ["machine integers are bit-precise (CBMC bit-vector semantics); no mathematical-integer idealisation",
                     "CBMC 6.11 / goto-instrument DFCC and the SAT/SMT back end are trusted",
-                    "environment contracts listed in coverage.trusted_base are assumed, not proved"]
+                    "environment contracts listed in coverage.trusted_base are assumed, not proved",
+                    "the verified text is the library's: scratch copies of /repo/src are byte-identical apart from injected loop-contract clauses (identity check), and every unit's harness compiles "
+                    "exactly the source lines the library build compiles (conditional-compilation identity, lib/ctxcheck.py, gcc -E -fdirectives-only; checked in this run); gcc's preprocessor stands in for goto-cc's"]
     assumptions += assumes + replaced_unproved
     ev = {"property_id": prop, "tier": tier, "seed": int(os.environ.get("VERIF_SEED", "0") or 0), "level": level,
           "coverage": cov, "assumptions": assumptions, "wall_s": round(wall, 2), "violations": len(violations)}
